@@ -223,7 +223,7 @@ func randomSession(c *drv.Ctx, call func(API, Op, map[string]Arg, string, Resp) 
 		return cs
 	}
 	api := apiFiles([]string{"/api", "/", "/api/v1"}[r.Intn(3)])
-	pieces := []string{"a", "b", "a/b", "b/c", "a%2Fb", "/", "a b", "c+d", "%", "a/b/c", "\xc3\xa9"}
+	pieces := []string{"a", "b", "a/b", "b/c", "a%2Fb", "/", "a b", "c+d", "%", "a/b/c", "\xc3\xa9", "{name}", "{dir}", "{sub}", "%7Bname%7D"}
 	piece := func() string { return pieces[r.Intn(len(pieces))] }
 	var calls []fcall
 	for i := 0; i < n; i++ {
@@ -251,8 +251,15 @@ func randomSession(c *drv.Ctx, call func(API, Op, map[string]Arg, string, Resp) 
 		}
 	}
 	cs := session(api, calls...)
+	customs := []string{"envelope", "consumers", "delete", "swap"}
 	for i := range cs.Steps {
 		cs.Steps[i].Debug = r.Intn(6) == 0
+		if r.Intn(12) == 0 {
+			cs.Steps[i].Before = customs[r.Intn(len(customs))]
+		}
+	}
+	if r.Intn(10) == 0 {
+		cs.PreCustom = customs[r.Intn(len(customs))]
 	}
 	return cs
 }
@@ -427,4 +434,138 @@ func batchSize(thorough bool) int {
 		return 20000
 	}
 	return 4000
+}
+
+// ---- round 4 -----------------------------------------------------------------------------
+
+// apiKeyed: operations protected by an apiKey scheme (header or query; plain or Ctx authenticator) that ALSO declare the key
+// as an ordinary parameter of the same name and location, required or not - the handler must get it like any other.
+func apiKeyed(base, in string, ctx, req bool) API {
+	name := "X-Api-Key"
+	if in == "query" {
+		name = "api_key"
+	}
+	key := Param{Name: name, Loc: in, Kind: "scalar", Type: "string", Req: req}
+	return API{Base: base, KeyIn: in, KeyName: name, KeyCtx: ctx, Ops: []Op{
+		{ID: "getKeyed", Method: "GET", Template: []Seg{lit("keyed"), ph("id")}, Produces: []string{mJSON}, Success: 200, Secured: true,
+			Params: []Param{sp("id", "path", "string"), key, sp("q", "query", "string"), sp("X-Hdr", "header", "string")}},
+		{ID: "postKeyed", Method: "POST", Template: []Seg{lit("keyed")}, Consumes: mForm, Alt: []string{mMulti}, Produces: []string{mJSON}, Success: 201, Secured: true,
+			Params: []Param{key, sp("f", "form", "string"), mp("multi", "query")}},
+		{ID: "putKeyed", Method: "PUT", Template: []Seg{lit("keyed"), ph("id")}, Consumes: mJSON, Produces: []string{mJSON}, Success: 200, Secured: true,
+			Params: []Param{sp("id", "path", "string"), key, {Name: "payload", Loc: "body", Kind: "body", Type: "object"}}},
+		{ID: "openKeyed", Method: "GET", Template: []Seg{lit("open")}, Produces: []string{mJSON}, Success: 200,
+			Params: []Param{key, sp("q", "query", "string")}},
+	}}
+}
+
+func genRound4(c *drv.Ctx, emit func(Case)) {
+	thorough := c.Tier == "thorough"
+
+	// (xii) path values that spell a SIBLING placeholder of the template ("{sub}", also inside other text, doubled, and in the
+	// escaped spelling "%7Bsub%7D"): substitution is one pass, a substituted value is never scanned again.  Every call is
+	// made four times (the client keeps path parameters in a map).
+	type tcase struct {
+		api API
+		op  string
+	}
+	for _, tc := range []tcase{{apiItems("/api", false), "formItem"}, {apiItems("/api", false), "delItem"}, {apiItems("/", false), "patchArr"},
+		{apiRoot("/"), "rootAB"}, {apiRoot("/api"), "rootABC"}, {apiFiles("/api"), "getNested"}, {apiFiles("/api/v1"), "getDeep"}} {
+		op := tc.api.op(tc.op)
+		var pnames []string
+		for _, p := range op.Params {
+			if p.Loc == "path" {
+				pnames = append(pnames, p.Name)
+			}
+		}
+		for _, pn := range pnames {
+			for _, qn := range pnames {
+				texts := []string{"{" + qn + "}", "x{" + qn + "}y", "{" + qn + "}{" + qn + "}", "%7B" + qn + "%7D", "{" + qn, qn + "}"}
+				if pn == qn {
+					texts = texts[:2]
+				}
+				for ti, text := range texts {
+					if !thorough && ti >= 4 && len(pnames) > 2 {
+						continue
+					}
+					ov := map[string]Arg{pn: one(pn, text)}
+					for _, other := range pnames {
+						if other != pn {
+							ov[other] = one(other, "val-"+other)
+						}
+					}
+					st := mkStep(op, ov, "none", okResp, op.Consumes)
+					emit(Case{API: tc.api, Steps: []Step{st, st, st, st}})
+				}
+			}
+		}
+		// every path parameter spells another one at once (a cycle)
+		ov := map[string]Arg{}
+		for i, pn := range pnames {
+			ov[pn] = one(pn, "{"+pnames[(i+1)%len(pnames)]+"}")
+		}
+		st := mkStep(op, ov, "none", okResp, op.Consumes)
+		emit(Case{API: tc.api, Steps: []Step{st, st, st, st}})
+	}
+
+	// (xiii) the apiKey of a secured operation is also a declared parameter: authenticated by the client's auth writer (the caller
+	// sets the parameter to the same key), by a body-reading signing writer, or by the parameter alone
+	for _, in := range []string{"header", "query"} {
+		for _, ctx := range []bool{false, true} {
+			for _, req := range []bool{false, true} {
+				api := apiKeyed("/api", in, ctx, req)
+				_, kname := api.key()
+				var steps []Step
+				for _, op := range api.Ops {
+					for ai, auth := range []string{"apikey", "signing", "param"} {
+						if !op.Secured && auth != "param" {
+							continue
+						}
+						for _, media := range op.medias() {
+							ov := map[string]Arg{kname: one(kname, secret), "q": one("q", hostileValues[(ai*5+len(op.ID))%len(hostileValues)])}
+							st := mkStep(op, ov, auth, okResp, media)
+							emit(Case{API: api, Shared: true, Steps: []Step{st}})
+							steps = append(steps, st)
+						}
+					}
+				}
+				emit(Case{API: api, Steps: steps})
+			}
+		}
+	}
+
+	// (xiv) another Runtime of the application is created and its codec tables customised - before the session's Runtime
+	// exists, and between its calls: the session's exchanges are not affected
+	items := apiItems("/api", false)
+	files := apiFiles("/api")
+	for _, what := range []string{"envelope", "consumers", "delete", "swap"} {
+		for _, pre := range []bool{false, true} {
+			for _, ss := range []struct {
+				api   API
+				calls []Step
+			}{
+				{items, []Step{mkStep(items.op("putItem"), nil, "none", okResp, mJSON), mkStep(items.op("patchArr"), nil, "none", okResp, mJSON),
+					mkStep(items.op("formItem"), nil, "none", okResp, mForm), mkStep(items.op("delItem"), nil, "none", okResp, ""), mkStep(items.op("putItem"), nil, "none", okResp, mJSON)}},
+				{files, []Step{fcall{op: "addNote", media: mJSON}.step(files), fcall{op: "putNote", media: mText}.step(files), fcall{op: "addNote", media: mText}.step(files),
+					fcall{op: "getDeep"}.step(files), fcall{op: "putNote", media: mJSON}.step(files)}},
+			} {
+				for at := 1; at < len(ss.calls); at += 2 {
+					steps := append([]Step{}, ss.calls...)
+					steps[at].Before = what
+					if at+2 < len(steps) {
+						steps[at+2].Before = what
+					}
+					cs := Case{API: ss.api, Steps: steps}
+					if pre {
+						cs.PreCustom = what
+						if at > 1 {
+							for i := range cs.Steps {
+								cs.Steps[i].Before = ""
+							}
+						}
+					}
+					emit(cs)
+				}
+			}
+		}
+	}
 }
